@@ -214,8 +214,8 @@ func verifHarnessC17Backup() {
 	verifBackup.mustUpload, verifBackup.attempts, verifBackup.lastGoodGen, verifBackup.readGen = false, 0, 0, 0
 	verifBackup.uploads, verifBackup.uploadGen, verifBackup.files = nil, nil, nil
 	verifBackup.readers = map[*bytes.Reader][]byte{}
-	verifBackupClock, verifBackupUploadTimes = 0, nil
-	verifBackupDecided, verifBackupCancelNow = false, false
+	verifBackupClock, verifBackupUploadTimes, verifBackupAttemptTimes = 0, nil, nil
+	verifBackupCancelNow, verifDecidedAtWait = false, -1
 	ctx := &verifBackupCtx{}
 	var _ context.Context = ctx
 
@@ -233,6 +233,11 @@ func verifHarnessC17Backup() {
 		assert("upload-is-whole-file-read", exact)
 		if i > 0 {
 			assert("at-most-one-upload-per-minute", verifBackupUploadTimes[i]-verifBackupUploadTimes[i-1] >= 60)
+		}
+	}
+	for i := range verifBackupAttemptTimes {
+		if i > 0 {
+			assert("at-most-one-upload-attempt-per-minute", verifBackupAttemptTimes[i]-verifBackupAttemptTimes[i-1] >= 60)
 		}
 	}
 	if verifBackup.genCalls >= 1 && ghostCount("s3.put.call") == 0 && ghostCount("readfile.failed") == 0 {
